@@ -120,17 +120,25 @@ where
     Module<B>: HalAll<B> + CoreAll<B> + ExecuteBDDCircuit<B>,
     Scratch<B>: ScratchTakeCore<B> + ScratchAvailable + TakeSlice,
 {
+    let per = fx
+        .module
+        .execute_bdd_circuit_tmp_bytes(&fx.glwe, circuit.max_state_size(), &fx.ggsw);
+    // generous: exact multi-thread sizing is C12's business
+    let mut s = B::scratch(threads * (per + 64) + 64);
+    eval_bytes_with::<B>(fx, circuit, threads, extra_out, fill, B::borrow(&mut s))
+}
+
+/// same with a caller-provided scratch
+pub fn eval_bytes_with<B: Bk>(fx: &Fixture<B>, circuit: &ToyCircuit, threads: usize, extra_out: usize, fill: usize, scratch: &mut Scratch<B>) -> Vec<u8>
+where
+    Module<B>: HalAll<B> + CoreAll<B> + ExecuteBDDCircuit<B>,
+    Scratch<B>: ScratchTakeCore<B> + ScratchAvailable + TakeSlice,
+{
     let mut out: Vec<GLWE<Vec<u8>>> = (0..circuit.output_size() + extra_out).map(|_| GLWE::alloc_from_infos(&fx.glwe)).collect();
     for o in out.iter_mut() {
         garbage(o.data_mut().data.as_mut_slice(), fill);
     }
-    let per = fx
-        .module
-        .execute_bdd_circuit_tmp_bytes(&fx.glwe, circuit.max_state_size(), &fx.ggsw);
-    let mut s = B::scratch(threads * per + 64);
-    // the scratch itself is garbage as well (per-thread windows are carved out of it)
-    fx.module
-        .execute_bdd_circuit_multi_thread(threads, &mut out, &fx.inputs, circuit, B::borrow(&mut s));
+    fx.module.execute_bdd_circuit_multi_thread(threads, &mut out, &fx.inputs, circuit, scratch);
     let mut bytes = vec![];
     for o in &out {
         bytes.extend_from_slice(&o.data().data);
@@ -555,6 +563,36 @@ pub fn run(run: &mut Run) {
     }
     pvc_common::for_backends!(fam_sched(run));
     pvc_common::for_backends!(fam_counts(run));
+    {
+        // integer preparation (circuit bootstrapping of every bit) at the suite's parameters (N=256)
+        let thorough = run.tier.is_thorough();
+        let cs = prep_cases("fft64-ref", thorough);
+        let (mut st, mut tr) = (0u64, 0u64);
+        run.single(
+            "schedules_prepare/fft64-ref",
+            "all schedules of fhe_uint_prepare_custom_multi_thread on a u8 word (yield points: worker start, before each of the three stages of each bit, worker end) with at most `bound` preemptions for (threads, bit_start, bit_count, bound) instances; oracle: prepared GGSW bytes of all 8 bits identical to threads=1 (bits outside the range zeroed), every bit prepared exactly once",
+            |rec| {
+                let r = prepare_fft64_ref(&cs, None, rec);
+                st = r.0;
+                tr = r.1;
+            },
+        );
+        run.states += st;
+        run.transitions += tr;
+        run.traces_validated += st;
+        if thorough && pvc_common::host_has_avx() {
+            let cs = prep_cases("fft64-avx", false);
+            let (mut st, mut tr) = (0u64, 0u64);
+            run.single("schedules_prepare/fft64-avx", "as schedules_prepare/fft64-ref (quick instances) on the AVX backend", |rec| {
+                let r = prepare_fft64_avx(&cs, None, rec);
+                st = r.0;
+                tr = r.1;
+            });
+            run.states += st;
+            run.transitions += tr;
+            run.traces_validated += st;
+        }
+    }
     let cs: Vec<ChunkCase> = (1..=70).map(|items| ChunkCase { items }).collect();
     run.family(
         "chunking_model",
@@ -610,6 +648,18 @@ pub fn replay(run: &mut Run, d: &Value) {
             }
         }};
     }
+    if fam.starts_with("schedules_prepare") {
+        let c: PrepCase = serde_json::from_value(d["case"].clone()).unwrap();
+        let s: Vec<usize> = serde_json::from_value(d["inner"]["schedule"].clone()).unwrap_or_default();
+        run.single(&fam, "replay", |rec| {
+            if backend == "fft64-avx" {
+                prepare_fft64_avx(&[c.clone()], Some((0, s.clone())), rec);
+            } else {
+                prepare_fft64_ref(&[c.clone()], Some((0, s.clone())), rec);
+            }
+        });
+        return;
+    }
     if fam == "chunking_model" {
         let c: ChunkCase = serde_json::from_value(d["case"].clone()).unwrap();
         run.single(&fam, "replay", |rec| exec_chunks(&c, rec));
@@ -621,4 +671,161 @@ pub fn replay(run: &mut Run, d: &Value) {
         "ntt120-avx" => go!(pvc_common::NTT120Avx),
         _ => go!(pvc_common::FFT64Ref),
     }
+}
+
+// ---------------------------------------------------------------------------------------------
+// second hooked site: fhe_uint_prepare_custom_multi_thread (integer preparation through circuit bootstrapping)
+// ---------------------------------------------------------------------------------------------
+
+#[derive(Clone, Debug, Serialize, Deserialize)]
+pub struct PrepCase {
+    pub subject: String,
+    pub backend: String,
+    pub threads: usize,
+    pub bit_start: usize,
+    pub bit_count: usize,
+    pub bound: usize,
+    pub value: u8,
+}
+
+macro_rules! prepare_subject {
+    ($fname:ident, $B:ty) => {
+        pub fn $fname(cases: &[PrepCase], only: Option<(usize, Vec<usize>)>, rec: &mut Rec) -> (u64, u64) {
+            use poulpy_bin_fhe::bdd_arithmetic::tests::test_suite::TestContext;
+            use poulpy_bin_fhe::bdd_arithmetic::{FheUint, FheUintPrepare, GetGGSWBit};
+            use poulpy_bin_fhe::blind_rotation::CGGI;
+            use poulpy_hal::layouts::DataView;
+            type B = $B;
+            let ctx: TestContext<CGGI, B> = TestContext::new();
+            let module = &ctx.module;
+            let glwe_infos = ctx.glwe_infos();
+            let ggsw_infos = ctx.ggsw_infos();
+            let enc = EncryptionLayout::new_from_default_sigma(glwe_infos).unwrap();
+            let (mut schedules, mut transitions) = (0u64, 0u64);
+            for (ci, c) in cases.iter().enumerate() {
+                if let Some((i, _)) = &only {
+                    if *i != ci {
+                        continue;
+                    }
+                }
+                let mut word: FheUint<Vec<u8>, u8> = FheUint::alloc_from_infos(&glwe_infos);
+                {
+                    let mut s = <B as Bk>::scratch(1 << 22);
+                    word.encrypt_sk(
+                        module,
+                        c.value,
+                        &ctx.sk_glwe,
+                        &enc,
+                        &mut Source::new([7u8; 32]),
+                        &mut Source::new([8u8; 32]),
+                        <B as Bk>::borrow(&mut s),
+                    );
+                }
+                let per = module.fhe_uint_prepare_tmp_bytes(7, 1, &ggsw_infos, &glwe_infos, &ctx.bdd_key);
+                let run_once = |threads: usize, fill: usize| -> Vec<u8> {
+                    let mut res: FheUintPrepared<_, u8, B> = FheUintPrepared::alloc_from_infos(module, &ggsw_infos);
+                    // generous: exact multi-thread sizing is C12's business (per-thread windows are re-aligned to 64 bytes)
+                    let mut s = <B as Bk>::scratch(threads * (per + 64) + 64);
+                    garbage(s.data.as_mut(), fill);
+                    module.fhe_uint_prepare_custom_multi_thread(threads, &mut res, &word, c.bit_start, c.bit_count, &ctx.bdd_key, <B as Bk>::borrow(&mut s));
+                    let mut bytes = vec![];
+                    for i in 0..8 {
+                        bytes.extend_from_slice(res.get_bit(i).data().data().as_ref());
+                    }
+                    bytes
+                };
+                let want = run_once(1, 2);
+                let mut outcomes = std::collections::BTreeSet::new();
+                let judge = |t: &RunTrace, got: &Option<Vec<u8>>, rec: &mut Rec, outcomes: &mut std::collections::BTreeSet<u64>| -> bool {
+                    let base = |kind: &str, why: String| json!({"op": c.subject, "backend": c.backend, "kind": kind, "case": c, "inner": {"case_index": ci, "schedule": t.choices}, "why": why});
+                    if let Some(e) = &t.error {
+                        rec.fail(base(if e.starts_with("deadlock") { "deadlock" } else { "scheduler_error" }, e.clone()));
+                        return false;
+                    }
+                    // stage 0 of every bit exactly once
+                    let mut items: Vec<usize> = t.events.iter().filter(|e| e.1 == vh::SITE_PREPARE && e.2 < usize::MAX - 1 && e.2 % 4 == 0).map(|e| e.2 / 4).collect();
+                    items.sort();
+                    let expect: Vec<usize> = (c.bit_start..c.bit_start + c.bit_count).collect();
+                    if items != expect {
+                        rec.fail(base("work_item_multiset", format!("bits prepared: {items:?}, expected {expect:?}")));
+                        return false;
+                    }
+                    match got {
+                        None => {
+                            rec.fail(base("panic", "the subject panicked under this schedule".into()));
+                            false
+                        }
+                        Some(g) => {
+                            outcomes.insert(fnv(g));
+                            if *g != want {
+                                rec.fail(base("schedule_dependent_result", "prepared bits differ from the single-threaded run".into()));
+                                return false;
+                            }
+                            true
+                        }
+                    }
+                };
+                let runner = |prefix: &[usize]| -> (RunTrace, Option<Vec<u8>>) {
+                    let mut got = None;
+                    let t = run_schedule(prefix, || {
+                        got = guarded(|| run_once(c.threads, prefix.len() % 2)).ok();
+                    });
+                    (t, got)
+                };
+                if let Some((_, s)) = &only {
+                    let (t1, g1) = runner(s);
+                    let (t2, g2) = runner(s);
+                    if t1.events != t2.events || g1 != g2 {
+                        rec.fail(json!({"op": c.subject, "backend": c.backend, "kind": "nondeterministic_replay", "case": c}));
+                    } else {
+                        judge(&t1, &g1, rec, &mut outcomes);
+                    }
+                    rec.evals(2);
+                    continue;
+                }
+                let last: std::cell::RefCell<Option<Option<Vec<u8>>>> = std::cell::RefCell::new(None);
+                let trans = std::cell::Cell::new(0u64);
+                let mut run_dyn = |p: &[usize]| -> RunTrace {
+                    let (t, g) = runner(p);
+                    trans.set(trans.get() + t.points.len() as u64);
+                    *last.borrow_mut() = Some(g);
+                    t
+                };
+                let mut check_dyn = |t: &RunTrace| -> bool {
+                    rec.evals(1);
+                    let l = last.borrow();
+                    judge(t, l.as_ref().unwrap(), rec, &mut outcomes)
+                };
+                let mut ex = Explorer::new(c.bound, 5_000);
+                ex.explore(vec![], &mut run_dyn, &mut check_dyn);
+                schedules += ex.schedules;
+                transitions += trans.get();
+                rec.add("schedules", ex.schedules);
+                rec.distinct(fnv(format!("{:?}", c).as_bytes()));
+                rec.sample(|| json!({"case": c, "schedules": ex.schedules, "max_points": ex.max_points}));
+            }
+            (schedules, transitions)
+        }
+    };
+}
+
+prepare_subject!(prepare_fft64_ref, pvc_common::FFT64Ref);
+prepare_subject!(prepare_fft64_avx, pvc_common::FFT64Avx);
+
+pub fn prep_cases(backend: &str, thorough: bool) -> Vec<PrepCase> {
+    let mut v = vec![];
+    let insts: &[(usize, usize, usize, usize)] =
+        if thorough { &[(2, 0, 4, 3), (3, 1, 5, 2), (2, 2, 3, 64), (3, 0, 8, 2)] } else { &[(2, 0, 4, 2), (3, 1, 5, 1)] };
+    for &(threads, bit_start, bit_count, bound) in insts {
+        v.push(PrepCase {
+            subject: "fhe_uint_prepare_custom_multi_thread".into(),
+            backend: backend.into(),
+            threads,
+            bit_start,
+            bit_count,
+            bound,
+            value: 0xA7,
+        });
+    }
+    v
 }
